@@ -141,8 +141,46 @@ type caCtx struct {
 	fails    []monFail
 	// shadow bookkeeping of the monitors (from the trace only)
 	acceptedRetry    [][]byte
+	datas            [][]byte
+	batch            bool
 	clientKind       string
 	srvTPDone        bool // a server closes earlyConnReadyChan when it accepts transport parameters: only once
+}
+
+// handle applies one datagram to the connection under test and remembers it (batch cases replay the same
+// datagrams on a twin connection through handlePackets).
+func (c *caCtx) handle(data []byte) quic.VerifCAResult {
+	c.datas = append(c.datas, append([]byte{}, data...))
+	return c.ca.Handle(data)
+}
+
+// genuine builds a correctly protected Initial (PING) of the peer for the connection's present state.
+func (c *caCtx) genuine() (opTerm string, data []byte, desc string) {
+	st := c.ca.State()
+	pn := c.pn
+	c.pn++
+	var scid, key, dcid []byte
+	if c.server {
+		scid, key, dcid = c.p.C, c.p.O, c.p.S1
+	} else {
+		scid, key, dcid = c.p.S1, c.p.O, c.p.C
+		if st.RcvFirst {
+			scid = st.HsDCID
+		}
+		if st.HasRetrySCID {
+			key = st.RetrySCID
+		}
+	}
+	data, _ = quic.VerifLongPacket(0, quic.Version(c.version), dcid, scid, nil, key, c.server, pn, quic.VerifFramePing())
+	opTerm = u.App("COpPkt", u.App("CLong", "TInitial", u.ZU(uint64(c.version)), u.Hex(scid), u.Hex(key), u.Z(pn), "PlPing"))
+	return opTerm, data, fmt.Sprintf("Genuine(scid=%x key=%x pn=%d)", scid, key, pn)
+}
+
+func (c *caCtx) doGenuine() bool {
+	op, data, desc := c.genuine()
+	res := c.handle(data)
+	c.steps = append(c.steps, caStep{op, nil, nil, caOutcome(res), c.ca.State(), desc})
+	return c.terminal(res)
 }
 
 func (c *caCtx) fail(key, desc string) { c.fails = append(c.fails, monFail{key, desc}) }
@@ -222,7 +260,7 @@ func (c *caCtx) doRetry() bool {
 		tag = quic.VerifRetryTag(body, c.p.O, ov)
 	}
 	data := append(append([]byte{}, body...), tag...)
-	res := c.ca.Handle(data)
+	res := c.handle(data)
 	after := c.ca.State()
 	out := caOutcome(res)
 	op := u.App("COpPkt", u.App("CRetry", u.ZU(uint64(ver)), u.Hex(scid), u.Hex(token), u.Hex(body), u.Hex(tag)))
@@ -279,7 +317,7 @@ func (c *caCtx) doVN() bool {
 		parseOK = false
 		vers = nil
 	}
-	res := c.ca.Handle(data)
+	res := c.handle(data)
 	after := c.ca.State()
 	out := caOutcome(res)
 	vs := make([]string, len(vers))
@@ -367,7 +405,7 @@ func (c *caCtx) doLong() bool {
 	if err != nil {
 		return false
 	}
-	res := c.ca.Handle(data)
+	res := c.handle(data)
 	after := c.ca.State()
 	out := caOutcome(res)
 	tyTerm := []string{"TInitial", "T0RTT", "THandshake"}[typ]
@@ -410,7 +448,7 @@ func (c *caCtx) doBad() bool {
 		d, _ := quic.VerifLongPacket(0, quic.Version(c.version), c.p.C, c.p.S1, nil, c.p.O, false, 1, quic.VerifFramePing())
 		data = d[:c.r.Range(6, 6+len(c.p.C)+len(c.p.S1))]
 	}
-	res := c.ca.Handle(data)
+	res := c.handle(data)
 	after := c.ca.State()
 	op := u.App("COpPkt", u.App("CBad", u.B(unsupported)))
 	desc := fmt.Sprintf("Bad(unsupported=%v)", unsupported)
@@ -545,8 +583,15 @@ func runOneConnAccept(w *bufio.Writer, r *u.Rng, idx int, dist map[string]int) {
 	nOps := r.Range(2, 9)
 	shape := r.Intn(6)
 	done := false
+	c.batch = r.Chance(1, 4)
 	for i := 0; i < nOps && !done; i++ {
 		k := r.Intn(100)
+		if c.batch && k >= 83 {
+			k = 50 + r.Intn(33) // datagrams only
+		}
+		if c.batch && i == nOps-2 && shape >= 3 && !c.server {
+			k = 30 // a Version Negotiation packet shortly before the end of the batch
+		}
 		if i == 0 && shape <= 1 && !c.server {
 			k = 0 // start with a Retry
 		}
@@ -572,6 +617,54 @@ func runOneConnAccept(w *bufio.Writer, r *u.Rng, idx int, dist map[string]int) {
 			c.fail("connaccept/dcid-sync", fmt.Sprintf("active DCID %x differs from handshakeDestConnID %x", st.DCID, st.HsDCID))
 		}
 	}
+	// batch: the same datagrams, plus two genuine ones behind them, handed to a twin connection in one go
+	var batchFinal quic.VerifCAState
+	batchRemaining, nExtra, nSeq := 0, 0, 0
+	if c.batch {
+		terminated := done
+		var extraOps, extraDesc []string
+		var extraData [][]byte
+		for j := 0; j < 2; j++ {
+			if terminated {
+				op, data, desc := c.genuine()
+				extraOps, extraData, extraDesc = append(extraOps, op), append(extraData, data), append(extraDesc, desc)
+			} else if c.doGenuine() {
+				terminated = true
+			}
+		}
+		nExtra = len(extraOps)
+		seq := c.ca.State()
+		if o.Spec != nil {
+			if sp, err := specFor(c.clientKind); err == nil {
+				o.Spec = sp
+			}
+		}
+		twin, err := quic.VerifNewCA(o)
+		if err != nil {
+			fmt.Fprintf(w, "MONFAIL\tconnaccept/construct\t%v\tkind=%s\n", err, c.clientKind)
+			return
+		}
+		all := append(append([][]byte{}, c.datas...), extraData...)
+		bres, rem := twin.HandleBatch(all)
+		batchFinal, batchRemaining = twin.State(), rem
+		nSeq = len(c.steps)
+		for j, op := range extraOps {
+			c.steps = append(c.steps, caStep{op, nil, nil, "ONone", seq, extraDesc[j] + "[queued behind]"})
+		}
+		// model-independent: working through the queue in one go = handling the datagrams one by one, and
+		// nothing queued behind the datagram that closed the connection is touched
+		if rem != nExtra || !caStateEq(batchFinal, seq) {
+			key := "connaccept/batch-differs"
+			if nExtra > 0 {
+				key = "connaccept/batch-after-close"
+			}
+			c.fail(key, fmt.Sprintf("handlePackets over %d queued datagrams: %d left in the queue (expected %d), state %s; one by one: %s (batch err=%q closed=%q)", len(all), rem, nExtra, caStateStr(batchFinal), caStateStr(seq), bres.Err, bres.Closed))
+		}
+		dist["batch"]++
+		if nExtra > 0 {
+			dist["batch-closed"]++
+		}
+	}
 	// emit
 	var initTerm string
 	vs := make([]string, len(c.versions))
@@ -594,7 +687,12 @@ func runOneConnAccept(w *bufio.Writer, r *u.Rng, idx int, dist map[string]int) {
 		}
 		dist["out="+strings.Fields(strings.Trim(s.out, "()"))[0]]++
 	}
-	fmt.Fprintf(w, "CASE %d %s\n", nt, u.App("CaseSeq", initTerm, caObs(init), u.List(terms)))
+	if c.batch {
+		fmt.Fprintf(w, "CASE %d %s\n", nt, u.App("CaseSeq", initTerm, caObs(init), u.List(terms[:nSeq])))
+		fmt.Fprintf(w, "CASE %d %s\n", nt, u.App("CaseBatch", initTerm, caObs(init), u.List(terms), caObs(batchFinal), u.Z(int64(batchRemaining))))
+	} else {
+		fmt.Fprintf(w, "CASE %d %s\n", nt, u.App("CaseSeq", initTerm, caObs(init), u.List(terms)))
+	}
 	detail := fmt.Sprintf("kind=%s v=%x versions=%x negotiated=%v O=%x C=%x: %s", c.clientKind, c.version, c.versions, negotiated, c.p.O, c.p.C, strings.Join(descs, " ; "))
 	if idx < 3 {
 		fmt.Fprintf(w, "SAMPLE\t%s\n", detail)
